@@ -92,7 +92,15 @@ func cmdCheck(argv []string) int {
 		}
 		specs = f
 	}
-	if len(specs) == 0 {
+	nLem := 0
+	for _, lm := range l.specs.lemmas {
+		for _, p := range lm.Props {
+			if p == *prop && (*only == "" || strings.Contains(lm.Name, *only)) {
+				nLem++
+			}
+		}
+	}
+	if len(specs) == 0 && nLem == 0 {
 		fmt.Fprintf(os.Stderr, "no functions under contract for property %s\n", *prop)
 		return 2
 	}
